@@ -616,6 +616,8 @@ class Path:
         if not path_parts:
             self.path_t = T
             return
+        if isinstance(path_parts[0], Path):
+            path_parts = (path_parts[0].path_t,) + path_parts[1:]
         if isinstance(path_parts[0], TType):
             path_t = path_parts[0]
             offset = 1
